@@ -61,6 +61,10 @@ CHECKS["C10"] = dict(category="proof",
    technique="Lean 4 theorems about Model.Api (life-cycle API over both micro-stepper models), tied to the ASan+UBSan build by I = M comparison of random API operation sequences; teardown/reset/cancel under forced timer-thread schedules (USCXML_VERIF hooks) with a watchdog",
    text="Proved for every chart, engine and operation sequence of the model: step results follow the life-cycle automaton, FINISHED is absorbing, CANCELLED is followed by exactly one finalising step running every active exit handler once, reset = fresh = destroy+recreate. The tie is the token-by-token comparison of the compiled interpreter with Model.Api.run on random operation sequences issued in every life-cycle state (also before the first step). Bounded-time destruction and safety under other threads are runtime facts outside the model: explored with schedule-forcing hooks, sanitizers and a watchdog, not proved.",
    design_ref="6 / C10", note="Trusted: Lean kernel; hand model Model.Api/Large/Fast + api harness. Partial: thread interleavings (timer, invoker, callers on other threads) are explored, not proved.")
+CHECKS["C09"] = dict(category="proof",
+   technique="Lean 4 theorems about Model.DelayQueue (ownership protocol of BasicDelayedEventQueue, all interleavings of the timer callback with any number of cancellers), tied to the compiled queue by replaying the observed order of its atomic sections (USCXML_VERIF trace hook) under forced schedules (schedule hooks) through the model; chart-level oracle for delayed send / cancel",
+   text="Proved for every schedule: no use after free or double free, at most one delivery and never before the due time, an event a cancel found is never delivered (whenever in the race the cancel came), a delivered event is never delivered again, and no reachable state is dead-locked; the pre-repair protocol provably dead-locks (two witnesses). The tie: the real queue runs scripts with sleeps injected at its protocol points; the sequence of locked sections it actually executed must be a run of the model with the same outcome. Timing itself (libevent fires when due, in due order) is trusted and cross-checked on the log with a 3 ms granularity.",
+   design_ref="6 / C09", note="Trusted: Lean kernel; hand model Model.DelayQueue; libevent's timer and event_del semantics; the dq harness and the log-to-action conversion in checks/c09.py.")
 PENDING = {}   # id -> reason (filled while the framework is being built)
 
 def main():
